@@ -28,6 +28,7 @@ type EchoCfg struct {
 	MTU      int     `json:"mtu"`
 	MaxSteps int     `json:"max_steps"`
 	YieldP   float64 `json:"yield_p"`
+	Offload  bool    `json:"checksum_offload,omitempty"` // the NIC declares checksum offload (which covers TCP and UDP, not ICMP)
 }
 
 func (scEcho) GenCfg(rng *sim.Rand, tier, prop, variant string) json.RawMessage {
@@ -35,6 +36,7 @@ func (scEcho) GenCfg(rng *sim.Rand, tier, prop, variant string) json.RawMessage 
 	if variant == "perturbed" {
 		c.YieldP = 0.2
 	}
+	c.Offload = rng.Chance(0.2)
 	b, _ := json.Marshal(c)
 	return b
 }
@@ -152,6 +154,32 @@ func (w *echoWorld) request(flags int, ident, seq uint16, n int, wait bool, burs
 		}
 		return append(b, pad...)
 	}
+	if frag && flags&1024 != 0 && len(msg) >= 160 {
+		// the same request in 17-40 fragments (8, 16 or 24 bytes each), in order or reversed
+		var frs [][]byte
+		for off := 0; off < len(msg); {
+			n := 8 * (1 + (off/8+int(seq))%3)
+			if rem := (len(msg) - off) / 8; len(frs) < 16 && rem > 16-len(frs) {
+				n = 8 // the first pieces are small, so that there are at least seventeen
+			}
+			if off+n >= len(msg) || len(frs) == 39 {
+				n = len(msg) - off
+			}
+			frs = append(frs, ip4(r.src, off+n < len(msg), off, msg[off:off+n]))
+			off += n
+		}
+		if seq%2 == 1 {
+			for i, j := 0, len(frs)-1; i < j; i, j = i+1, j-1 {
+				frs[i], frs[j] = frs[j], frs[i]
+			}
+		}
+		for _, f := range frs {
+			w.Inject4(f, 0)
+		}
+		w.Probes["fragmented_request"]++
+		w.Probes["requests_in_seventeen_or_more_fragments"]++
+		return
+	}
 	if frag && len(msg) > 16 {
 		// two fragments, second first (ties into C08)
 		cut := (len(msg) / 2) &^ 7
@@ -260,6 +288,23 @@ func (w *echoWorld) apply(s Step) {
 			w.InjectIP(false, peer4, A4, codec.ProtoICMP, codec.EncodeICMPv4(13, 0, 0, make([]byte, 12)), 0)
 		}
 		w.collect()
+	case "reuseid":
+		// a fragment of a request that is never completed; more than the reassembly timeout later the same requester
+		// sends a complete fragmented request with the same IP identification: answered like any other
+		w.ipid = uint16(0x7700 + s.A%64)
+		lone := codec.EncodeEcho([]byte(peer4), []byte(A4), false, false, 0x6b6b, uint16(s.A), echoPayload(w.seed, 0x6b6b, uint16(s.A), 64))
+		w.Inject4(codec.IPv4([]byte(peer4), []byte(A4), codec.ProtoICMP, w.ipid, 64, false, true, 0, lone[:32]), 0)
+		w.Advance(time.Duration(31+s.B%20) * time.Second)
+		w.collect()
+		w.ipid-- // request() increments it first: the same identification again
+		w.nburst++
+		if !w.noA4 {
+			w.request(8, uint16(0x4000+s.A), uint16(s.B), 200+s.A%100, true, w.nburst)
+			w.Settle()
+			w.collect()
+			w.checkBurst(w.nburst)
+			w.Probes["identification_of_an_abandoned_datagram_reused"]++
+		}
 	case "linkfault":
 		// the device refuses the next frame(s): those replies are lost, the replier must go on serving
 		w.S.Link.FailWrites = 1 + s.A%2
@@ -343,6 +388,9 @@ func (w *echoWorld) next() Step {
 	if r.Chance(0.4) {
 		flags |= 512
 	}
+	if r.Chance(0.3) {
+		flags |= 1024
+	}
 	lens := []int{0, 1, 2, 7, 8, 9, 55, 56, 57, 127, 128, 129, 1000, 1471, 1472, 1473, 8000, 65000}
 	n := lens[r.Intn(len(lens))]
 	if r.Chance(0.3) {
@@ -353,7 +401,9 @@ func (w *echoWorld) next() Step {
 	if r.Chance(0.5) {
 		id, seq = r.Intn(65536), r.Intn(65536)
 	}
-	switch r.Pick(10, 4, 2, 2, 2, 1) {
+	switch r.Pick(10, 4, 2, 2, 2, 1, 1) {
+	case 6:
+		return Step{Op: "reuseid", A: r.Intn(64), B: r.Intn(20)}
 	case 5:
 		return Step{Op: "linkfault", A: r.Intn(2)}
 	case 4:
@@ -376,7 +426,11 @@ func (scEcho) Run(t *testing.T, prop string, seed uint64, cfgRaw json.RawMessage
 	json.Unmarshal(cfgRaw, &cfg)
 	o := &RunOut{Cfg: cfgRaw}
 	bubble(t, func() {
-		w := &echoWorld{PeerWorld: NewPeerWorld(seed, uint32(cfg.MTU), NodeOpts{})}
+		w := &echoWorld{PeerWorld: NewPeerWorld(seed, uint32(cfg.MTU), NodeOpts{Offload: cfg.Offload})}
+		if cfg.Offload {
+			w.Mon.Offload = true
+			w.Probes["links_declaring_checksum_offload"]++
+		}
 		defer w.Close()
 		w.TraceOn = trace
 		w.YieldP = cfg.YieldP
